@@ -519,6 +519,28 @@ impl World {
         ibc_count: &mut usize,
         out: &mut TxOut,
     ) -> Result<Option<Vec<u8>>, String> {
+        let n0 = out.msgs.len();
+        let r = self.dispatch_stargate_inner(url, bytes, tenv, ibc_count, out);
+        // C19 wire-level records: the raw bytes of token-factory messages (only when asked for)
+        if std::env::var("MWH_RAW").is_ok() {
+            for m in out.msgs.iter_mut().skip(n0) {
+                if m["k"].as_str().map(|k| k.starts_with("tf_")).unwrap_or(false) {
+                    m["raw"] = json!(bytes);
+                    m["contract_raw"] = json!(self.contract.as_bytes());
+                }
+            }
+        }
+        r
+    }
+
+    fn dispatch_stargate_inner(
+        &mut self,
+        url: &str,
+        bytes: &[u8],
+        tenv: &TxEnv,
+        ibc_count: &mut usize,
+        out: &mut TxOut,
+    ) -> Result<Option<Vec<u8>>, String> {
         let contract = self.cur.clone();
         let fs = pb::parse(bytes)?;
         match url {
@@ -862,7 +884,8 @@ impl World {
     /// ibc-hooks: native account `from` sends `amt` of the staked asset over `channel` with a
     /// wasm memo calling the contract. Credits the intermediate account and calls the contract
     /// as that account; on failure the packet is refunded on the native chain.
-    pub fn hook_call(&mut self, channel: &str, from: &str, amt: u128, msg: &Value, limited: bool) -> (String, TxOut) {
+    pub fn hook_call(&mut self, channel: &str, from: &str, amt: u128, msg: &Value, limited: bool, denom: &str) -> (String, TxOut) {
+        let limited = limited && denom == IBC_DENOM;
         let h = hook_account(channel, from, &self.prefix);
         let hname = format!("hook|{}|{}", channel, self.names.nm(from));
         std::sync::Arc::make_mut(&mut self.names).add(&hname, &h);
@@ -873,11 +896,11 @@ impl World {
             }
             *b -= amt;
         }
-        self.credit(&h, IBC_DENOM, amt);
-        let out = self.tx_execute(&h, msg, &[(IBC_DENOM.to_string(), amt)], &TxEnv::default());
+        self.credit(&h, denom, amt);
+        let out = self.tx_execute(&h, msg, &[(denom.to_string(), amt)], &TxEnv::default());
         if !out.ok {
             // refund on the native chain
-            let _ = self.debit(&h, IBC_DENOM, amt);
+            let _ = self.debit(&h, denom, amt);
             if limited {
                 *self.nat_bal.entry(from.to_string()).or_insert(0) += amt;
             }
